@@ -98,12 +98,16 @@ impl Prop for TypedForeign {
 impl RandomProp for TypedForeign {
     fn strategy(_env: &Env) -> BoxedStrategy<vlib::refcodec::FileModel> {
         crate::c03::file_model(4, 4, 5)
-            .prop_filter_map("typed file", |mut m| {
+            .prop_map(|mut m| {
                 if m.ty == Ty::Null {
-                    return None;
+                    // a null-typed file has no typed reading: use a fixed one-point file instead of rejecting the draw
+                    m = vlib::refcodec::FileModel::simple(
+                        Ty::Point,
+                        vec![Geom { ty: Ty::Point, parts: vec![Part { kind: 0, pts: vec![v4(1.5, -2.5, 0.0, 0.0)] }], bbox: [F(0); 8], m_present: false }.canon_file()],
+                    );
                 }
                 m.recs.retain(|r| r.geom.ty != Ty::Null);
-                Some(m)
+                m
             })
             .boxed()
     }
